@@ -1,4 +1,4 @@
-import LeptosModel.Proofs.OwnerRerun
+import LeptosModel.Proofs.OwnerWatch
 /-!
 # C08 — owner disposal releases exactly what the scope created, exactly once
 
@@ -25,6 +25,9 @@ so nothing is left to run; the ordering theorem does not constrain such entries.
 *Findings.*  `cleanup` leaves `contexts` in place (`C08_context_survives_cleanup`): the full
 statement `C08_context_fresh_full` is refuted, `C08_context_fresh_partial` is the strongest true
 statement, its hypothesis is the decidable class `ctx-survives-cleanup` of the check.
+`Effect::watch` called its handler outside the effect's owner (F-C08-2, repaired in /repo): the
+model follows the repaired code, `C08_watch_handler_owned` is the full statement, and
+`C08_watch_handler_unowned` keeps the failing history as a witness against the old definition.
 -/
 namespace Leptos.Owner
 
@@ -226,69 +229,46 @@ theorem C08_with_cleanup_releases (st : St) (hr : Reachable st.toCore) (o b : Na
   ⟨fun k hk => (ArenaLe.reach (runWc_after st o b)).dead k (C08_handles_invalidated hr ha hd hk),
    fun c hc => logHas_mono (runWc_after st o b) (cleanupOwner_runs hr.treeWF ha hd hc)⟩
 
-/-! ### the handler of `Effect::watch` -/
+/-! ### the handler of `Effect::watch` (F-C08-2, repaired)
 
-/-- full statement: whatever a `watch` handler creates is created under an owner -/
-def C08_watch_handler_owned_full : Prop := ∀ ops : List Op, (runOps {} ops).watchHit = false
+Before the repair `Effect::watch` / `watch_sync` called the handler outside the effect's owner
+(`runHandlerOld`, selected by the configuration flag `legacyWatch`); the repaired code calls it under
+`owner.with(..)` (`runHandlerNew`): what the handler allocates belongs to the current run of the
+effect and is released by the next run's `with_cleanup` together with what the dependency function
+allocated. -/
 
-/-- F-C08-2: `Effect::watch` calls the handler outside `owner.with_cleanup(..)`: with
+/-- **full**: along every history (of the repaired model) nothing is ever created for a `watch`
+handler while no owner frame is active -/
+theorem C08_watch_handler_owned (ops : List Op) : (runOps {} ops).watchHit = false :=
+  (w_runOps (a := {}) rfl (W.refl _) ops).hit
+
+/-- regression witness against the **old** definition: with
 `body r0; body i3; x o; in 0 x s1; in 0 x W0.1; idle` the stored value the handler creates has no
 owner (`unowned = 1`) and survives the disposal of everything (`end`) -/
 theorem C08_watch_handler_unowned :
-    (runOps {} [.body [.read 0], .body [.item 3], .act [] (.x .newOwner), .act [0] (.x (.sig 1)),
-      .act [0] (.x (.watch 0 1 true)), .idle]).watchHit = true ∧
-    (runOps {} [.body [.read 0], .body [.item 3], .act [] (.x .newOwner), .act [0] (.x (.sig 1)),
-      .act [0] (.x (.watch 0 1 true)), .idle, .«end»]).arena.len = 1 := by decide
+    (runOps { legacyWatch := true } [.body [.read 0], .body [.item 3], .act [] (.x .newOwner),
+      .act [0] (.x (.sig 1)), .act [0] (.x (.watch 0 1 true)), .idle]).watchHit = true ∧
+    (runOps { legacyWatch := true } [.body [.read 0], .body [.item 3], .act [] (.x .newOwner),
+      .act [0] (.x (.sig 1)), .act [0] (.x (.watch 0 1 true)), .idle, .«end»]).arena.len = 1 := by decide
 
-theorem C08_watch_handler_owned_full_false : ¬ C08_watch_handler_owned_full := by
-  intro h
-  have := h [.body [.read 0], .body [.item 3], .act [] (.x .newOwner), .act [0] (.x (.sig 1)),
-      .act [0] (.x (.watch 0 1 true)), .idle]
-  revert this; decide
+/-- the same history on the repaired definition: the handler's value is owned by the effect and is
+gone with everything else -/
+theorem C08_watch_handler_released :
+    (runOps {} [.body [.read 0], .body [.item 3], .act [] (.x .newOwner),
+      .act [0] (.x (.sig 1)), .act [0] (.x (.watch 0 1 true)), .idle]).unowned = 0 ∧
+    (runOps {} [.body [.read 0], .body [.item 3], .act [] (.x .newOwner),
+      .act [0] (.x (.sig 1)), .act [0] (.x (.watch 0 1 true)), .idle, .«end»]).arena.len = 0 := by decide
 
-theorem addSource_watchHit (st : St) (me : Sub) (s : Nat) : (addSource st me s).watchHit = st.watchHit := by
-  unfold addSource
-  split
-  · split <;> rfl
-  · split <;> rfl
-
-theorem readSig_watchHit (st : St) (s : Nat) : (readSig st s).watchHit = st.watchHit := by
-  unfold readSig
-  split
-  · split
-    · simp only
-      split
-      · split
-        · rw [addSource_watchHit]
-        · rfl
-      · rfl
-    · rfl
-  · rfl
-
-/-- partial: a handler token executed while some owner is current (the negation is the decidable
-class `watch-handler-unowned`) does not raise the flag -/
-theorem C08_watch_handler_owned_partial (st : St) (op : BOp) (h : (currentOwner st.toCore).isSome = true) :
-    (execHandlerTok st op).watchHit = st.watchHit := by
-  have hn : (currentOwner st.toCore).isNone = false := by
-    cases hc : currentOwner st.toCore with
-    | none => rw [hc] at h; cases h
-    | some o => rfl
-  cases op with
-  | read s => exact readSig_watchHit st s
-  | cleanup tag => simp [execHandlerTok, hn]
-  | item v => simp [execHandlerTok, hn]
-  | sig v => simp [execHandlerTok, hn]
-  | use ty => simp [execHandlerTok, hn]
-  | get m => rfl
-  | nested tag => rfl
-  | provide ty v => rfl
-  | take ty => rfl
-  | effect b => rfl
-  | memo b => rfl
-  | newOwner => rfl
-  | watch b hb imm => rfl
-  | render b => rfl
-  | async b => rfl
+/-- what a handler run allocates is a node of the effect's owner … -/
+example : (runOps {} [.body [.read 0], .body [.item 3], .act [] (.x .newOwner), .act [0] (.x (.sig 1)),
+    .act [0] (.x (.watch 0 1 true)), .idle]).items.map (runOps {} [.body [.read 0], .body [.item 3],
+    .act [] (.x .newOwner), .act [0] (.x (.sig 1)), .act [0] (.x (.watch 0 1 true)), .idle]).arena.get
+    = [some (Val.num 3)] := by decide
+/-- … and the next run releases it (one live generation) -/
+example : (runOps {} [.body [.read 0], .body [.item 3], .act [] (.x .newOwner), .act [0] (.x (.sig 1)),
+    .act [0] (.x (.watch 0 1 true)), .idle, .set 0 2, .idle]).items.map (runOps {} [.body [.read 0],
+    .body [.item 3], .act [] (.x .newOwner), .act [0] (.x (.sig 1)), .act [0] (.x (.watch 0 1 true)), .idle,
+    .set 0 2, .idle]).arena.get = [none, some (Val.num 3)] := by decide
 
 /-! ## frame -/
 
@@ -467,10 +447,6 @@ example : (runOps {} [.body [.read 0, .item 7], .act [] (.x .newOwner), .act [0]
     .act [0] (.x (.async 0)), .set 0 2, .idle, .set 0 3, .idle]).arena.len = 3 := by decide
 example : (runOps {} [.body [.item 7, .newOwner], .act [] (.x .newOwner), .child 0,
     .act [] (.wc 1 0), .act [] (.wc 1 0), .act [] (.wc 1 0)]).arena.len = 1 := by decide
-/-- a handler token under a current owner: the hypothesis of `C08_watch_handler_owned_partial` -/
-example : (currentOwner (runOps {} [.act [] (.x .newOwner)]).toCore).isSome = false ∧
-    (currentOwner (pushCur (runOps {} [.act [] (.x .newOwner)]).toCore 0)).isSome = true := by decide
-
 /-- a retained child owner is detached by its parent's `cleanup`: what is created under it later is
 released when the child itself is cleaned or dropped, not by the parent's next `cleanup` -/
 theorem C08_detached_child_example :
